@@ -1,7 +1,7 @@
 (* C05 — Ring buffer slots: no overwrite before consumption, no unordered access. *)
 From Coq Require Import Arith Lia.
 From DC Require Import Disruptor.Pipeline.
-From DC Require Disruptor.HB Disruptor.MultiPub.
+From DC Require Disruptor.HB Disruptor.MultiPub Disruptor.MultiPubHB.
 
 (* the producer writes sequence q into slot q mod N only when EVERY handler of EVERY stage has returned from
    the sequence q - N previously stored there — for every ring size, topology, batch size and interleaving *)
@@ -63,7 +63,27 @@ Theorem C05_multi_no_overwrite : forall N, 1 <= N -> forall s t lo hi,
   MultiPub.reachable N s -> MultiPub.tp s t = MultiPub.TClaimed lo hi -> forall q, lo <= q <= hi -> q < MultiPub.gate s + N.
 Proof. exact MultiPub.mp_no_overwrite. Qed.
 
+(* ---- happens-before for the MULTI producer, true concurrency (Disruptor/MultiPubHB.v) -------------------------
+   any number of producer threads and of first-stage consumers, every atomic operation its own step, any interleaving,
+   consumer-cursor and producer-cursor loads possibly stale; SeqCst read-modify-writes on the ready bits and the cursor
+   CAS, Release stores / Acquire loads on the cursors (pinned by trace validation). *)
+(* a consumer about to touch sequence i: every fill made so far to that slot is ordered before the access *)
+Theorem C05_multi_consumer_accesses_race_free : forall N, 1 <= N -> forall C s c i a,
+  MultiPubHB.hreachable N C s -> c < C -> MultiPubHB.cp s c = MultiPubHB.CBatch i a ->
+  forall q, MultiPubHB.fl s q = true -> q mod N = i mod N -> MultiPubHB.kf (MultiPubHB.kc s c) q = true.
+Proof. exact MultiPubHB.consumer_no_race. Qed.
+
+(* a producer about to fill the next sequence of its claim: every consumer access and every fill made so far to that
+   slot is ordered before the write *)
+Theorem C05_multi_producer_fills_race_free : forall N, 1 <= N -> forall C s t lo hi,
+  MultiPubHB.hreachable N C s -> MultiPub.tp (MultiPubHB.base s) t = MultiPub.TClaimed lo hi -> MultiPubHB.pf s t <= hi ->
+  (forall c j, c < C -> 1 <= j <= MultiPubHB.cdone s c -> j mod N = MultiPubHB.pf s t mod N -> j <= MultiPubHB.ka (MultiPubHB.kp s t) c) /\
+  (forall q, MultiPubHB.fl s q = true -> q mod N = MultiPubHB.pf s t mod N -> MultiPubHB.kf (MultiPubHB.kp s t) q = true).
+Proof. exact MultiPubHB.producer_no_race. Qed.
+
 Print Assumptions C05_no_overwrite_before_consumption.
+Print Assumptions C05_multi_consumer_accesses_race_free.
+Print Assumptions C05_multi_producer_fills_race_free.
 Print Assumptions C05_multi_no_overwrite.
 Print Assumptions C05_handler_accesses_race_free.
 Print Assumptions C05_producer_fills_race_free.
